@@ -138,26 +138,25 @@ func runCrash(c *hx.Ctx, seq *Seq, only int) *crashResult {
 	// model's batch counts per op
 	cl := or.Ask("counts "+fmt.Sprintf("%x", W)+" ; "+strings.Join(w.mops, " ; "), 1)[0]
 	got := strings.Trim(fmt.Sprint(res.counts), "[]")
-	if cl != got {
-		c.Violation("model-mismatch:batches-per-op", fmt.Sprintf("committed writes per operation: implementation [%s], model [%s]", got, cl),
-			Case{Seq: *seq, Mode: "crash", Index: -1}, true)
-		for _, im := range images {
-			closeIfPebble(im)
-		}
-		return res
-	}
+	withModel := cl == got
 	for k, img := range images {
 		if only >= 0 && k != only {
 			closeIfPebble(img)
 			continue
 		}
-		w.checkCrashImage(seq, k, opOf[k], img)
+		// when the commit structure differs from the model's, the images are still examined with the
+		// property predicates (so that a concrete failing crash point is reported), without the model's image
+		w.checkCrashImage(seq, k, opOf[k], img, withModel)
 		closeIfPebble(img)
+	}
+	if !withModel {
+		c.Violation("model-mismatch:batches-per-op", fmt.Sprintf("committed writes per operation: implementation [%s], model [%s]", got, cl),
+			Case{Seq: *seq, Mode: "crash", Index: -1}, true)
 	}
 	return res
 }
 
-func (w *world) checkCrashImage(seq *Seq, k, opIdx int, img db.KeyValueStore) {
+func (w *world) checkCrashImage(seq *Seq, k, opIdx int, img db.KeyValueStore, withModel bool) {
 	c := w.c
 	cs := Case{Seq: *seq, Mode: "crash", Index: k}
 	during := "initial image"
@@ -168,12 +167,18 @@ func (w *world) checkCrashImage(seq *Seq, k, opIdx int, img db.KeyValueStore) {
 	}
 	enc, notes := w.decodeImage(img)
 	ev := strings.Fields(or.Ask("eval "+fmt.Sprintf("%x", W)+" ; "+enc, 1)[0])
-	ml := or.Ask(fmt.Sprintf("crash %x %d ; ", W, k)+strings.Join(w.mops, " ; "), 1)[0]
-	mp := strings.SplitN(ml, " # ", 2)
-	if len(ev) != 4 || len(mp) != 2 {
-		hx.Fatalf("oracle reply: %q / %q", ev, ml)
+	if len(ev) != 4 {
+		hx.Fatalf("oracle reply: %q", ev)
 	}
-	mflags := strings.Fields(mp[1])
+	var mp, mflags []string
+	if withModel {
+		ml := or.Ask(fmt.Sprintf("crash %x %d ; ", W, k)+strings.Join(w.mops, " ; "), 1)[0]
+		mp = strings.SplitN(ml, " # ", 2)
+		if len(mp) != 2 {
+			hx.Fatalf("oracle reply: %q", ml)
+		}
+		mflags = strings.Fields(mp[1])
+	}
 	consistent := ev[0] == "1" && len(notes) == 0
 	// observations on a fresh process (the next-store probe works on its own copies of the pristine image;
 	// the fresh process runs behind a counting proxy: its initialisation may write)
@@ -209,6 +214,9 @@ func (w *world) checkCrashImage(seq *Seq, k, opIdx int, img db.KeyValueStore) {
 		c.Violation(class, what+"fresh process event query differs from the receipts: "+evWhat, cs, false)
 	}
 	// correspondence with the model
+	if !withModel {
+		return
+	}
 	if mp[0] != enc {
 		c.Violation("model-mismatch:crash-image", what+"decoded image differs from the model's\n   impl : "+enc+"\n   model: "+mp[0], cs, true)
 		return
